@@ -48,11 +48,6 @@ PENDING_FINDINGS = {
         'girwriter.c write_callable_info spells g_arg_info_may_be_null as the legacy allow-none="1" for every direction; '
         'on a direction="out" parameter allow-none means OPTIONAL (scanner rule, girparser.c start_parameter), so the GIR '
         'g-ir-generate writes for a nullable out parameter says optional and no longer says nullable',
-    'compile:callback-member-swallows-function':
-        'girparser.c start_function (since b00e44e) turns a <callback> inside a union/boxed/interface field into a gpointer but '
-        'leaves ctx->current_typed pointing at that field; the next <function>/<method>/<constructor> met before another '
-        '<type> ends is stored as field->callback (and is missing from its container): FieldBlob.has_embedded_type is set with '
-        'a FunctionBlob behind it, g_type_info_get_interface hits g_assert_not_reached and the walker and g-ir-generate abort',
     'generate:boxed:crash':
         'g-ir-generate aborts on every typelib that has a <glib:boxed> entry: girwriter.c write_struct_info calls '
         'g_struct_info_get_copy_function on the GI_INFO_TYPE_BOXED info, whose g_return_val_if_fail (GI_IS_STRUCT_INFO) '
@@ -445,8 +440,8 @@ class Gen(object):
         if hidden:
             a += self.HIDDEN
             self.stats.hit('hidden:signal')
-        w = rng.choice([None, 'first', 'last', 'cleanup', 'FIRST', 'LAST', 'CLEANUP', 'Cleanup'])
-        if w:
+        w = rng.choice([None, 'first', 'last', 'cleanup', 'FIRST', 'LAST', 'CLEANUP', 'Cleanup', 'must-collect', ''])
+        if w is not None:
             a += ' when="%s"' % w
         for flag, p in (('no-recurse', 0.15), ('detailed', 0.15), ('action', 0.15), ('no-hooks', 0.15), ('deprecated', 0.1)):
             if rng.random() < p:
@@ -481,20 +476,14 @@ class Gen(object):
         return a
 
     def plain_member_fields(self, n):
-        """the fields of a union / boxed type: now and then a function pointer member (stored as gpointer there).
-        Such a member is always followed by a visible data member: until the next <type> ends, girparser.c keeps
-        the callback field as `current_typed` and hands the NEXT function it meets to it as its embedded callback
-        (PENDING compile:callback-member-swallows-function; corpus case `union-callback-member-then-method`)."""
-        rng = self.rng
+        """the fields of a union / boxed type: now and then a function pointer member (stored as gpointer there,
+        never as an embedded callback blob), at any position, also last before the functions"""
         s = ''
-        last_cb = False
         for i in range(n):
-            last_cb = rng.random() < 0.2
-            s += self.field('      ', last_cb, visible=not last_cb and i > 0)
-            if last_cb:
+            cb = self.rng.random() < 0.25
+            s += self.field('      ', cb)
+            if cb:
                 self.stats.hit('field:callback-in-union-or-boxed')
-        if last_cb:
-            s += self.field('      ', False, visible=True)
         return s
 
     def boxed(self):
@@ -638,11 +627,9 @@ class Gen(object):
             methods_txt = methods_txt.replace('<method name="%s"' % target,
                                               '<method name="%s" %s="%s"' % (target, which, rng.choice(prop_names)), 1)
             self.stats.hit('accessor-method')
-        elif not prop_names and only_methods and rng.random() < 0.4:
-            # accessor of a property the typelib does not have (skipped, or never declared): a plain method.
-            # Only where the container has NO property at all: with other properties present girnode.c
-            # get_index_of_member_type answers the index of the last one for an unknown name and the function is
-            # recorded as accessor of that property (GIR->blob translation, C06's subject; reported, not judged here)
+        elif only_methods and rng.random() < 0.3:
+            # accessor of a property the typelib does not have (skipped, or never declared): a plain method,
+            # whether or not the container has other properties
             if rng.random() < 0.5:
                 hn, htxt = self.prop(ind, only_methods, hidden=True)
                 absent_props.append(hn)
@@ -1180,9 +1167,8 @@ class Api(object):
         self.dump_type(path + '.t', self.type_el(e), 'property')
 
     def dump_signal(self, path, e):
-        # when: first / last / cleanup in any case, absent = last; any other value sets no run flag
-        w = (e.get('when') if e.get('when') is not None else 'LAST').upper()
-        flags = {'LAST': 2, 'FIRST': 1, 'CLEANUP': 4}.get(w, 0)
+        # when: first / last / cleanup in any case; absent, or a value naming no run phase = last
+        flags = {'FIRST': 1, 'CLEANUP': 4}.get((e.get('when') or '').upper(), 2)
         for attr, bit in (('no-recurse', 8), ('detailed', 16), ('action', 32), ('no-hooks', 64)):
             if e.get(attr) == '1':
                 flags |= bit
@@ -1541,21 +1527,6 @@ def classify(check, d, expected_api):
     return '%s:%s:%s:%s' % (check, kname, item, missing)
 
 
-def _swallowing_member(api):
-    """the source GIR has a union / boxed member holding a <callback> that is not directly followed by a visible
-    data member (a <field> with a <type>/<array>): the input class of PENDING compile:callback-member-swallows-function"""
-    for e in api.entries:
-        if e.tag not in (q('union'), gq('boxed')):
-            continue
-        kids = [c for c in e if c.tag != q('attribute')]
-        for i, c in enumerate(kids):
-            if c.tag == q('field') and not api.skipped(c) and c.find(q('callback')) is not None:
-                nxt = kids[i + 1] if i + 1 < len(kids) else None
-                if nxt is None or nxt.tag != q('field') or api.skipped(nxt) or api.type_el(nxt) is None:
-                    return True
-    return False
-
-
 def judge(ctx, cnt, res, where):
     """All checks on one processed GIR.  Returns list of (key, text) problems found (for the search)."""
     problems = []
@@ -1582,8 +1553,6 @@ def judge(ctx, cnt, res, where):
     if 'walk' in res:
         if res['walk_rc'] != 0:
             key = 'walk:crash'
-            if _swallowing_member(exp_api) and 'g_type_info_get_interface: code should not be reached' in res['walk_err']:
-                key = 'compile:callback-member-swallows-function'
             fail(key, 'walking the public API of a compiled typelib ended with %r: %s' % (res['walk_rc'], res['walk_err'][-300:]))
         else:
             diffs = diff_dumps(expected, res['walk'])
@@ -1604,8 +1573,6 @@ def judge(ctx, cnt, res, where):
             if (any(exp_api.entry_kind(e) == 4 for e in exp_api.entries)
                     and "g_struct_info_get_copy_function: assertion 'GI_IS_STRUCT_INFO (info)' failed" in res['gen_err']):
                 key = 'generate:boxed:crash'
-            elif _swallowing_member(exp_api) and 'g_type_info_get_interface: code should not be reached' in res['gen_err']:
-                key = 'compile:callback-member-swallows-function'
             fail(key, 'g-ir-generate ended with %r on a compiled typelib: %s' % (res['gen_rc'], res['gen_err'][-300:]))
         else:
             try:
@@ -1830,12 +1797,6 @@ def run(ctx):
             break
         model, hyps = answers[2 * idx], answers[2 * idx + 1]
         for h in hyp_names:
-            if h == 'union_fields_plain' and not hyps.get(h, True):
-                try:
-                    if _swallowing_member(Api(c[2], 'source')):
-                        continue        # reported by judge() as PENDING compile:callback-member-swallows-function
-                except Exception:
-                    pass
             if not hyps.get(h, True):
                 cnt.hit('hypothesis-unmet:' + h)
                 if cnt.counts['hypothesis-unmet:' + h] <= 2:
